@@ -1,0 +1,22 @@
+//go:build verif
+
+package explorer
+
+// Machine-checked contracts (comment-only; compiled only with -tags verif).
+//
+// Property C29, second sentence (the listing contains exactly the swamps present on disk): a
+// completed scan always starts from an empty index -- on every path through Scan (and through
+// scanDirectory, which is verified inline as part of Scan) that returns nil, the index was cleared
+// exactly once, including the case where no storage file is left on disk. The per-file worker
+// goroutines are not part of this contract (goroutine bodies are outside the verified subset).
+
+//@ func (*hierarchicalIndex).clear(idx)
+//@   opaque
+//@ func (*hierarchicalIndex).add(idx, detail)
+//@   opaque
+
+//@ func (*Explorer).Scan(e, ctx) (err)
+//@   property C29
+//@   overflow: assumed
+//@   modifies *
+//@   ensures[every_completed_scan_starts_from_empty] err == nil ==> calls("hierarchicalIndex.clear") == old(calls("hierarchicalIndex.clear")) + 1
